@@ -118,7 +118,17 @@ def run(ctx):
         outs = list(dict.fromkeys(r[0] for r in sessions[0]))
         live = rng.sample(outs, rng.randint(0, len(outs)))
         live_plus = live + rng.sample(paths, 1)    # a live statement without deps record
-        sc = "rm f\n" + sess_script(sessions[0]) + "read f\nnew\nlive %s\nload f\ndump\nrecompact f\ndump\n" % (
+        # sometimes an earlier recompaction died before it could replace the log: its temporary file (complete, or torn)
+        # is still there, holding an older state; the next recompaction must not build on it
+        leftover = ""
+        first = sess_script(sessions[0])
+        if rng.random() < 0.6 and len(sessions[0]) >= 2:
+            k = rng.randint(1, len(sessions[0]) - 1)
+            cut = rng.choice(("", "", " %d" % rng.randint(13, 200)))
+            first = sess_script(sessions[0][:k]) + ("cptrunc f f.recompact%s\n" % cut if cut else "cp f f.recompact\n") + sess_script(sessions[0][k:])
+            leftover = "rm f.recompact\n"
+            ctx.count("recompactions_with_leftover_temp_file")
+        sc = "rm f\nrm f.recompact\n" + first + "read f\nnew\nlive %s\nload f\ndump\nrecompact f\ndump\n" % (
             ",".join(hx(x) for x in live_plus) or "-") + CHECK
         extra = gen_session(rng, paths, 2)
         sc += sess_script(extra) + CHECK
@@ -367,6 +377,10 @@ def judge_sequence(ctx, cid, ev, meta):
             else:
                 ctx.count("recompactions_ok")
                 ctx.nontrivial(("recompact", cid))
+        if cid[0] == "R" and len(dumps) >= 3 and after is not None and after == want and dumps[2] != want:
+            k = [k for k in set(dumps[2]) | set(want) if dumps[2].get(k) != want.get(k)][0]
+            ctx.violation("C09/recompaction/differs-after-reload", "%s: the recompacting process had GetDeps(%r)=%r, a new process loading the "
+                          "recompacted log gets %r" % (cid, util.show(k), want.get(k), dumps[2].get(k)))
         if cid[0] == "R" and len(dumps) >= 4:
             cur = dict(want)
             for out, mt, deps in extra:
